@@ -235,6 +235,32 @@ def run_injected_env_case(ctx, index: int):
     return found, info
 
 
+def run_dir_pattern_case(ctx, index: int):
+    """`static()` with a pattern whose matches are directories (they become static trees): a restart with
+    nothing changed must find the recorded matches unchanged and run nothing."""
+    from simdirector import A, FifoSchedule, Project, plan_file
+
+    r = ctx.rng("dir-pattern", index)
+    pattern = ["data/*/", "data/${*name}/", "da*/*/"][index % 3]
+    plan = [A.static(pattern), A.step("use", inp=["data/a/x.txt"], out=["out/u.txt"])]
+    scripts = {"./plan.py": plan}
+    files = {"plan.py": plan_file(plan), "data/a/x.txt": "x\n", "data/b/y.txt": "y\n"}
+    found = []
+    info = {"pattern": pattern}
+    with SimDirector(Project(scripts=copy.deepcopy(scripts), files=dict(files)), seed=r.randrange(1 << 30)) as sim:
+        b1 = sim.build(njob=1, schedule=FifoSchedule())
+        if b1.status != "done" or not b1.ok:
+            return [("director-" + b1.status, f"the first build ended with {b1.returncode!r}: {(b1.error or '')[-200:]}", info)], info
+        b2 = sim.build(njob=r.randint(1, 2))
+        info["commands"] = b2.commands
+        if b2.status != "done" or not b2.ok or b2.commands:
+            found.append(("noop-rebuild-runs-commands:restart:directory-matches-of-a-static-pattern",
+                          f"a restart with nothing changed executed {b2.commands} ({b2.returncode!r}) in a project whose plan "
+                          f"declares static({pattern!r})",
+                          {**info, "events": [e[:2] for e in b2.events if e[0] in ("START", "SKIP", "NOSKIP", "UPDATED", "DELETED")][:12]}))
+    return found, info
+
+
 def run_env_dropped_case(ctx, index: int):
     """A step stops reading an environment variable (its script and a declared input change, so it is
     run again and no longer announces the variable); afterwards the variable changes: nothing tracks it
@@ -349,6 +375,16 @@ async def search(ctx):
             ctx.finding(Finding(PID, sig, what, {
                 "case": {"verif_seed": ctx.seed, "salt": "dropamend", "index": i}, **extra,
                 "how": "props/c04.py run_dropamend_case(ctx, index); harness/repro/c04_dropamend_two_plans.py"}))
+    for i in range(ctx.budget(3, 12)):
+        found, info = await asyncio.to_thread(run_dir_pattern_case, ctx, i)
+        st.case(("dir-pattern", i), nontrivial=True)
+        st.programs += 1
+        st.count("dir-pattern-histories")
+        for sig, what, extra in found:
+            st.count("finding:" + sig)
+            ctx.finding(Finding(PID, sig, what, {
+                "case": {"verif_seed": ctx.seed, "salt": "dir-pattern", "index": i}, **extra,
+                "how": "props/c04.py run_dir_pattern_case(ctx, index)"}))
     for i in range(ctx.budget(3, 12)):
         found, info = await asyncio.to_thread(run_injected_env_case, ctx, i)
         st.case(("injected-env", i), nontrivial=True)
